@@ -32,3 +32,11 @@ def classify(prop, b, kf):
         if c is not None and c(b, f.get("params") or {}):
             return f
     return None
+
+
+@classifier("pending_view_sees_parent_write")
+def _pending_view(b, params):
+    """A handle obtained by selection and not yet materialised shares its source's buffer; a later write to the source is
+    visible in it (and in everything computed from it).  Recognised ONLY when the specification's mechanism level marks the
+    handle stale AND the observed content is exactly what the mechanism level predicts for it."""
+    return b.get("family") == "heap" and bool(b.get("stale")) and bool(b.get("mech_match"))
